@@ -32,7 +32,7 @@ ASSIGNOPS = [b'=', b'=', b'=', b'+=', b'-=', b'*=', b'/=', b'%=', b'..=']
 
 NAMES = [b'a', b'b', b'x', b'y', b'i', b'n', b't', b'foo', b'bar', b'player', b'_x', b'endx', b'_if', b'nilly',
          b'z', b'ba', b'bb', b'obj', b'\x8e', b'x\x83', b'\x97n', b'do_it', b'v2', b'count_1', b'self', b'tbl',
-         b'e', b'p', b'k', b'w']
+         b'e', b'p', b'k', b'w', b'\xef\xbb\xbfm']
 BUILTINS = [b'print', b'spr', b'btn', b'rnd', b'flr', b'add', b'del', b'pairs', b'all', b'cls', b'sin', b'max',
             b'sub', b'tostr', b'_update', b'_draw', b'_init', b'mid', b'stat', b't']
 FIELDS = [b'x', b'y', b'w', b'len', b'pos', b'vel', b'name', b'update', b'draw', b'n', b'a', b'z', b'id', b'\x91k']
